@@ -26,6 +26,7 @@
 #include <sys/wait.h>
 #include <unistd.h>
 
+#include <algorithm>
 #include <atomic>
 #include <condition_variable>
 #include <mutex>
@@ -137,7 +138,7 @@ struct World {
   std::map<const void*, std::pair<int, int>> cell_owner;   // address -> (handle, thread) of live pairs
   std::set<int> live_threads;
   uint64_t n_add = 0, n_read = 0, n_cread = 0, n_new = 0, n_drop = 0, n_move = 0, n_reset = 0, n_alive = 0,
-           n_reuse_inst = 0, n_reuse_tid = 0, n_probe = 0, n_cross = 0;
+           n_reuse_inst = 0, n_reuse_tid = 0, n_probe = 0, n_cross = 0, n_local = 0, n_doomed = 0, n_mvprobe = 0;
   std::set<long> inst_seen[NKIND];
   std::set<long> tid_seen[NKIND];
 };
@@ -206,6 +207,7 @@ struct Op {
   int h;
   long v, n;
   bool probe;
+  int local_kind = -1;   // >= 0: construct a counter of that kind in THIS thread, count, read, destroy
 };
 
 static void do_op(const Op& op) {
@@ -304,7 +306,9 @@ static void do_drop(int h) {
   vrt_event("drop %d", h);
   for (auto it = W->cell_owner.begin(); it != W->cell_owner.end();)
     it = (it->second.first == h) ? W->cell_owner.erase(it) : std::next(it);
+  auto victim = std::move(W->objs[h]);
   W->objs.erase(h);
+  victim.reset();   // the destructor has scheduling points: run it with the table already consistent
   ++W->n_drop;
 }
 
@@ -314,7 +318,7 @@ struct Visit {
 };
 
 // quiescent (or concurrent, `conc`) read of handle h; prints the event and checks the reference
-static void do_read(int h, bool conc) {
+static void do_read(int h, bool conc, bool local) {
   Obj& o = *W->objs[h];
   if (conc) vrt_event("call cread %d", h);
   const char* ev = conc ? "ret cread" : "read";
@@ -357,7 +361,10 @@ static void do_read(int h, bool conc) {
       } else {
         o.cetl->for_each([&](uint64_t& x) { see(x); });
       }
-      vrt_event("%s %d %ld %zu", ev, h, vis.sum, vis.slots.size());
+      // (on a worker thread the number of slots walked depends on which other threads have taken their
+      // first slot meanwhile: only the sum is a quiescent observation there)
+      if (local) vrt_event("%s %d %ld _", ev, h, vis.sum);
+      else vrt_event("%s %d %ld %zu", ev, h, vis.sum, vis.slots.size());
       if (!conc) {
         if (vis.sum != o.total) vrt_event("ORACLE for_each-sum handle %d: %ld, added %ld", h, vis.sum, o.total);
         std::set<long> seen(vis.slots.begin(), vis.slots.end());
@@ -450,6 +457,7 @@ static void swap_refs(Obj& a, Obj& b, int ha, int hb) {
 
 // h' = new object move-constructed from h
 static int do_mvnew(int h) {
+  do_op(Op {h, 0, 1, true});   // the long-lived main thread caches its cell of h ...
   Obj& src = *W->objs[h];
   int h2 = W->next_handle++;
   auto o = std::make_unique<Obj>();
@@ -465,11 +473,14 @@ static int do_mvnew(int h) {
   swap_refs(*W->objs[h2], src, h2, h);
   vrt_event("mvnew %d %d %ld", h2, h, fresh);
   ++W->n_move;
+  do_op(Op {h, 0, 1, true});    // ... and must land in h's NEW storage after the move, not in the cached one
+  do_op(Op {h2, 0, 1, true});
   return h2;
 }
 
 // h2 = std::move(h)
 static void do_mvasg(int h2, int h) {
+  do_op(Op {h, 0, 1, true});
   Obj& a = *W->objs[h2];
   Obj& b = *W->objs[h];
   switch (a.kind) {
@@ -480,6 +491,24 @@ static void do_mvasg(int h2, int h) {
   swap_refs(a, b, h2, h);
   vrt_event("mvasg %d %d", h2, h);
   ++W->n_move;
+  do_op(Op {h, 0, 1, true});
+  do_op(Op {h2, 0, 1, true});
+}
+
+static void do_read(int h, bool conc, bool local = false);
+static void check_zero_after_new(int h);
+
+// instance churn on the calling (worker) thread, concurrent with the other threads' counting, creating
+// and destroying: { Counter c; c << v; read c; } — the new counter typically recycles the id (and the
+// cells) of a counter another thread has just destroyed or is destroying
+static void do_local_round(const Op& op) {
+  int h = do_new((Kind)op.local_kind);
+  check_zero_after_new(h);
+  do_op(Op {h, op.v, 1, false});
+  if (op.n & 1) sched_yield();
+  do_read(h, false, true);
+  do_drop(h);
+  ++W->n_local;
 }
 
 struct Worker {
@@ -504,7 +533,7 @@ static void worker_main(Worker* w) {
       g_cv.wait(lk, [&] { return g_phase >= p; });
     }
     for (auto& op : w->ops) {
-      do_op(op);
+      if (op.local_kind >= 0) do_local_round(op); else do_op(op);
       if (yr.chance(25)) sched_yield();
     }
     {
@@ -646,13 +675,14 @@ static void run_hist(uint64_t seed) {
   W->live_threads.insert(0);
   admin(rng, 6, 0);
   std::vector<std::unique_ptr<Worker>> workers;
+  std::vector<int> moved_last;   // handles involved in the move at the end of the previous phase
   for (int p = 0; p < phases; ++p) {
     // new generation
     int born = 1 + (int)rng.below(6);
     for (int i = 0; i < born && workers.size() < 40; ++i) {
       auto w = std::make_unique<Worker>();
       w->first = p;
-      w->last = std::min(phases - 1, p + (rng.chance(30) ? 1 + (int)rng.below(2) : 0));
+      w->last = std::min(phases - 1, p + (rng.chance(45) ? 1 + (int)rng.below(3) : 0));
       workers.push_back(std::move(w));
       Worker* wp = workers.back().get();
       wp->th = std::thread(worker_main, wp);
@@ -664,9 +694,34 @@ static void run_hist(uint64_t seed) {
     for (int h : hs)
       if (rng.chance(75)) { busy.push_back(h); W->objs[h]->busy = true; }
     bool concurrent = rng.chance(50) && !busy.empty();
+    // a move planned for the end of this phase: threads that live on touch the instance last thing
+    // before it and first thing after it (their per-thread cache then names the moved-from object)
+    int mv_a = 0, mv_b = 0;
+    {
+      auto ms = handles_of(true);
+      if (!ms.empty() && rng.chance(60)) {
+        mv_a = ms[rng.below(ms.size())];
+        if (rng.chance(50)) {
+          int b = ms[rng.below(ms.size())];
+          if (b != mv_a && W->objs[b]->kind == W->objs[mv_a]->kind) mv_b = b;
+        }
+      }
+    }
+    // counters the main thread destroys WHILE the workers count / create / destroy elsewhere
+    std::vector<int> doomed;
+    for (int h : hs)
+      if (!W->objs[h]->busy && h != mv_a && h != mv_b && doomed.size() < 4 && rng.chance(60) &&
+          std::find(moved_last.begin(), moved_last.end(), h) == moved_last.end())
+        doomed.push_back(h);
+    static const Kind local_kinds[] = {ADDER, ADDER, SUMMER, MAXER, MINER, CETL};
     for (auto& w : workers) {
       w->ops.clear();
       if (w->last < p || w->first > p) continue;
+      // first thing after the previous phase's move: the surviving thread touches both objects again
+      if (w->first < p) {
+        for (int h : moved_last)
+          if (W->objs.count(h)) { w->ops.push_back(Op {h, 0, 1, true}); ++W->n_mvprobe; }
+      }
       int n = busy.empty() ? 0 : 1 + (int)rng.below(12);
       for (int i = 0; i < n; ++i) {
         int h = busy[rng.below(busy.size())];
@@ -676,6 +731,14 @@ static void run_hist(uint64_t seed) {
         if (concurrent && (k == ADDER || k == SUMMER) && rng.chance(60)) op.v = std::labs(op.v) % 5000;
         w->ops.push_back(op);
       }
+      int locals = (int)rng.below(4);
+      for (int i = 0; i < locals; ++i) {
+        Kind k = local_kinds[rng.below(sizeof(local_kinds) / sizeof(local_kinds[0]))];
+        Op op {0, pick_value(rng, k), (long)rng.below(2), false};
+        op.local_kind = (int)k;
+        w->ops.insert(w->ops.begin() + rng.below(w->ops.size() + 1), op);
+      }
+      if (mv_a && w->last > p) { w->ops.push_back(Op {mv_a, 0, 1, true}); ++W->n_mvprobe; }
     }
     register_payload();
     {
@@ -689,6 +752,17 @@ static void run_hist(uint64_t seed) {
       int h = busy[rng.below(busy.size())];
       do_op(Op {h, pick_value(rng, W->objs[h]->kind), 1, rng.chance(10)});
       sched_yield();
+    }
+    for (int h : doomed) {
+      do_drop(h);
+      ++W->n_doomed;
+      sched_yield();
+      if (rng.chance(50)) {   // and recycle at once, on this thread, while the workers churn too
+        Op op {0, pick_value(rng, ADDER), 1, false};
+        op.local_kind = (int)local_kinds[rng.below(sizeof(local_kinds) / sizeof(local_kinds[0]))];
+        op.v = pick_value(rng, (Kind)op.local_kind);
+        do_local_round(op);
+      }
     }
     if (concurrent) {
       int n = 1 + (int)rng.below(5);
@@ -723,13 +797,23 @@ static void run_hist(uint64_t seed) {
     vrt_unname_all();   // the quiescent section needs no extra scheduling points
     // quiescent point
     quiescent_reads(rng);
+    moved_last.clear();
+    if (mv_a && W->objs.count(mv_a)) {
+      if (mv_b && W->objs.count(mv_b)) {
+        do_mvasg(mv_b, mv_a);
+        moved_last = {mv_a, mv_b};
+      } else {
+        int h2 = do_mvnew(mv_a);
+        moved_last = {mv_a, h2};
+      }
+    }
     admin(rng, 5, p == 1 ? wide : 0);
     quiescent_reads(rng);
   }
   for (int h : handles_of(false)) do_drop(h);
-  vrt_event("stats phases %d threads %zu adds %lu reads %lu creads %lu alive %lu new %lu drop %lu move %lu reset %lu probe %lu reuse_inst %lu reuse_tid %lu cross %lu steps %lu switches %lu",
+  vrt_event("stats phases %d threads %zu adds %lu reads %lu creads %lu alive %lu new %lu drop %lu move %lu reset %lu probe %lu reuse_inst %lu reuse_tid %lu cross %lu local %lu doomed %lu mvprobe %lu steps %lu switches %lu",
             phases, workers.size(), W->n_add, W->n_read, W->n_cread, W->n_alive, W->n_new, W->n_drop, W->n_move, W->n_reset, W->n_probe,
-            W->n_reuse_inst, W->n_reuse_tid, W->n_cross, vrt_steps(), vrt_switches());
+            W->n_reuse_inst, W->n_reuse_tid, W->n_cross, W->n_local, W->n_doomed, W->n_mvprobe, vrt_steps(), vrt_switches());
   vrt_end();
   vrt_payload_sched(0);
   vrt_dump(stdout);
